@@ -93,6 +93,12 @@ def _altloc_pair(t):
         at["serial"] = k + 1
 
 
+def _one_chain(t):
+    """All residues in one chain (the common NMR layout once a second model is added: every model consists of the same single chain)."""
+    for a in t:
+        a["chain"] = "A"
+
+
 def _serial_offset(off):
     def f(t):
         for a in t:
@@ -136,11 +142,15 @@ def deviations():
     d.append(_model_numbers(2, 9999))
     # a blank chain identifier (column 22 is a space): legal in PDB files, only PDB text can express it
     d.append(_res(0, 12, "chain", " "))
+    # one chain only (with a second model: consecutive models end and begin in a chain of the same name); atom names of the pre-2008 PDB style
+    d.append(_one_chain)
+    d.append(_name_el(1, "O3*", "O"))
+    d.append(_name_el(8, "C5M", "C"))
     return d
 
 
 DEVS = deviations()
-LAYOUT_CRITICAL = [k for k, f in enumerate(DEVS) if any(s in f.__name__ for s in ("name=", "resseq", ".x=", "serial+", "_second_model", "charge", "icode", "_altloc", "models="))]
+LAYOUT_CRITICAL = [k for k, f in enumerate(DEVS) if any(s in f.__name__ for s in ("name=", "resseq", ".x=", "serial+", "_second_model", "charge", "icode", "_altloc", "models=", "_one_chain"))]
 
 
 def BOUNDS(tier):
